@@ -809,3 +809,40 @@ Example bald_two_tiebreaks_duplicate_refuted :
   map fst (bald_internal 2 score 2 [1; 2]) = [1; 0]%nat /\ map fst t = [0; 0]%nat /\
   psteps_ok SelMax [0; 1]%nat [] 2 t = false.
 Proof. vm_compute. repeat split. Qed.
+
+
+(* =====================================================================================
+   RegressionTreeBasedAL (random / diversity), as written
+   ===================================================================================== *)
+(* whatever the tree, the quotas and the values are: the indices returned are pairwise distinct candidates and every row has the
+   documented NaN pattern with an optimal pick - for as many steps as the schedule has (at most the number of candidates) *)
+Theorem regtree_accepted (m : nat) (leaf_of : nat -> nat) (value : nat -> Z) (neg : Z) (sched : list nat) (noises : list (list Z)) :
+  (length sched <= m)%nat -> noises_ok m (length sched) noises ->
+  psteps_ok SelMax (seq 0 m) [] m (rt_loop m leaf_of value neg sched noises) = true /\
+  length (rt_loop m leaf_of value neg sched noises) = length sched.
+Proof.
+  intros Hk Hn. unfold rt_loop.
+  apply (sel_loop_steps rt_state (fun s => rt_row m leaf_of value neg (hd O (fst s)) (snd s)) (fun s p => (tl (fst s), snd s ++ [p]))
+           (seq 0 m) m (fun s prev => snd s = prev)).
+  - apply seq_NoDup.
+  - rewrite Forall_forall. intros i Hi. apply in_seq in Hi. lia.
+  - intros s prev E. split.
+    + unfold rt_row. rewrite map_length, seq_length. reflexivity.
+    + intros j Hj. unfold rt_row. rewrite nth_map_seq0 by exact Hj. rewrite E.
+      assert (Hc : memb j (seq 0 m) = true) by (apply memb_In; apply in_seq; lia).
+      rewrite Hc. cbn [negb orb]. destruct (memb j prev); [reflexivity|]. destruct (Nat.eqb (leaf_of j) (hd O (fst s))); reflexivity.
+  - intros s prev p E _ _. cbn [snd]. rewrite E. reflexivity.
+  - reflexivity.
+  - constructor.
+  - intros x [].
+  - rewrite seq_length. cbn [length]. lia.
+  - exact Hn.
+Qed.
+
+(* the number of indices returned is the length of the schedule, not batch_size: one candidate in leaf 0, quota 1 for leaf 0 and
+   quota 1 for leaf 1 that holds no candidate -> the library's schedule is [0], one index is returned for batch_size 2; and a
+   quota that exceeds the leaf's candidates makes the loop take a candidate of ANOTHER leaf whose utility is -inf *)
+Example regtree_neg_inf_pick_refuted :
+  let t := rt_loop 2 (fun j => j) (fun _ => 1) (-5) [0; 0]%nat [[1; 1]; [1; 1]] in
+  map fst t = [0; 1]%nat /\ nth 1 (snd (nth 1 t (O, []))) None = Some (-5).
+Proof. vm_compute. split; reflexivity. Qed.
